@@ -33,6 +33,7 @@ pub fn list() -> Vec<(&'static str, super::Scenario)> {
         ("sync_wipe", sync_wipe),
         ("repoll", repoll),
         ("nested_wait", nested_wait),
+        ("drop_plain", drop_plain),
     ]
 }
 
@@ -1341,20 +1342,30 @@ fn panic_contain(cfg: &Cfg) {
     let good = w.raw();
     let qbad = match &bad { Obj::Raw(q, _) => q.clone(), _ => unreachable!() };
     let revive_gate = Gate::new_keep_stale();
+    // `guard`=1: the panicking operation owns a clean-up guard whose destructor, run while the panic unwinds, uses the healthy
+    // object synchronously; the healthy object must stay healthy
+    let guard: Option<Arc<dyn Fn() + Send + Sync>> = if cfg.opt("guard", 0) == 1 {
+        let (w1, g1) = (w.clone(), good.clone());
+        Some(Arc::new(move || { w1.sync(&g1, "GUARD", Body::plain()); }))
+    } else {
+        None
+    };
+    let panicking = || Body { panic: true, on_unwind: guard.clone(), ..Body::default() };
     match ctx {
         0 => {
-            w.desync(&bad, "BOOM", Body::panicking());
+            w.desync(&bad, "BOOM", panicking());
         }
         1 => {
-            let (w1, b1) = (w.clone(), bad.clone());
-            let t = spawn(move || { w1.sync(&b1, "BOOM", Body::panicking()); });
+            let (w1, b1, body) = (w.clone(), bad.clone(), panicking());
+            let t = spawn(move || { w1.sync(&b1, "BOOM", body); });
             if t.join().is_ok() {
                 rt::violation("PANIC-LOST the panic of a sync closure did not reach the caller".into());
             }
         }
         2 => {
             let (w1, b1) = (w.clone(), bad.clone());
-            let t = spawn(move || w1.future_desync(&b1, "BOOM-FD", Body { panic: true, self_wake, ..Body::default() }).wait_any());
+            let body = Body { self_wake, ..panicking() };
+            let t = spawn(move || w1.future_desync(&b1, "BOOM-FD", body).wait_any());
             let _ = t.join();
         }
         4 => {
@@ -1373,7 +1384,7 @@ fn panic_contain(cfg: &Cfg) {
                 rt::set_census_limit(POOL_NAME, 0);
             }
             // the panicking future is run by a thread draining the queue inside sync
-            w.future_desync(&bad, "BOOM-FD", Body { panic: true, self_wake, ..Body::default() }).detach();
+            w.future_desync(&bad, "BOOM-FD", Body { self_wake, ..panicking() }).detach();
             let (w1, b1) = (w.clone(), bad.clone());
             let t = spawn(move || { w1.sync(&b1, "S-behind-BOOM", Body::plain()); });
             let _ = t.join();
@@ -1386,7 +1397,7 @@ fn panic_contain(cfg: &Cfg) {
             let (w1, b1, bg1) = (w.clone(), bad.clone(), bg.clone());
             let holder = spawn(move || { w1.sync(&b1, "HOLD", Body::blocking(&bg1)); });
             rt::quiesce();
-            w.desync(&bad, "BOOM", Body::panicking());
+            w.desync(&bad, "BOOM", panicking());
             let (w1, b1) = (w.clone(), bad.clone());
             let t = spawn(move || { w1.sync(&b1, "S-behind-BOOM", Body::plain()); });
             rt::quiesce();
@@ -1395,7 +1406,7 @@ fn panic_contain(cfg: &Cfg) {
             let _ = t.join();
         }
         _ => {
-            w.future_desync(&bad, "BOOM-FD", Body { panic: true, self_wake, ..Body::default() }).detach();
+            w.future_desync(&bad, "BOOM-FD", Body { self_wake, ..panicking() }).detach();
         }
     }
     if cfg.opt("revive", 0) == 1 {
@@ -2331,5 +2342,84 @@ fn nested_wait(cfg: &Cfg) {
     join(h2, "holder-x");
     join(t, "t");
     finish(&w, &[&q, &x], pool);
+    shutdown();
+}
+
+/// C05 / C14: the protected value has no destructor of its own (`Desync<u64>`: no drop glue), so nothing but the ordering of
+/// `Desync::drop` itself shows whether it waited.  `state`: 0 a desync job is running (blocked on a gate), 1 a desync job is
+/// queued behind it as well, 2 a future_desync operation is suspended at an await.  The last owner is dropped by another
+/// thread while the environment releases the gate; every job writes the value after a scheduling point.
+fn drop_plain(cfg: &Cfg) {
+    use desync::Desync;
+    use futures::FutureExt;
+    use std::sync::atomic::AtomicU64;
+    let pool = cfg.pool();
+    setup(pool);
+    let state = cfg.opt("state", 0);
+    let w = World::new();
+    w.prelude(cfg);
+    let d = Desync::new(7u64);
+    let ended = Arc::new(AtomicU64::new(0));
+    let expected = if state == 1 { 2 } else { 1 };
+    let finished = Arc::new(std::sync::atomic::AtomicUsize::new(0));
+    let bg = BGate::new();
+    let g = Gate::new();
+    match state {
+        0 | 1 => {
+            let (b, e, f) = (bg.clone(), ended.clone(), finished.clone());
+            d.desync(move |v| {
+                b.wait();
+                vsched::thread::yield_now();
+                *v += 1;
+                e.store(rt::tick(), AO::SeqCst);
+                f.fetch_add(1, AO::SeqCst);
+            });
+            if state == 1 {
+                let (e, f) = (ended.clone(), finished.clone());
+                d.desync(move |v| {
+                    vsched::thread::yield_now();
+                    *v += 1;
+                    e.store(rt::tick(), AO::SeqCst);
+                    f.fetch_add(1, AO::SeqCst);
+                });
+            }
+        }
+        _ => {
+            let (g1, e, f) = (g.clone(), ended.clone(), finished.clone());
+            d.future_desync(move |v| {
+                async move {
+                    g1.await;
+                    vsched::thread::yield_now();
+                    *v += 1;
+                    e.store(rt::tick(), AO::SeqCst);
+                    f.fetch_add(1, AO::SeqCst);
+                }
+                .boxed()
+            })
+            .detach();
+        }
+    }
+    let dropped_at = Arc::new(AtomicU64::new(0));
+    let t = {
+        let da = dropped_at.clone();
+        spawn(move || {
+            drop(d);
+            da.store(rt::tick(), AO::SeqCst);
+        })
+    };
+    if state == 2 {
+        g.open();
+    } else {
+        bg.open();
+    }
+    join(t, "dropper");
+    let n = finished.load(AO::SeqCst);
+    if n != expected {
+        rt::violation(format!("DROP-EARLY Desync::drop returned although only {} of {} operations scheduled beforehand had finished", n, expected));
+    } else if ended.load(AO::SeqCst) > dropped_at.load(AO::SeqCst) {
+        rt::violation("DROP-EARLY an operation scheduled before the drop finished after Desync::drop had returned".into());
+    }
+    rt::quiesce();
+    check_no_unplanned_panics();
     shutdown();
 }
